@@ -1,3 +1,4 @@
+import os.path
 import re
 import stat
 
@@ -50,6 +51,10 @@ class BuckGophermapHandler(BaseHandler):
             and stat.S_ISREG(self.statresult[stat.ST_MODE])
         ):
             selector = self.getselector()
+            # Relative links are relative to the directory the file is in.
+            self.selectorbase = os.path.dirname(self.selector)
+            if self.selectorbase == "/":
+                self.selectorbase = ""
         else:
             selector = self.selectorbase + "/gophermap"
 
